@@ -28,6 +28,10 @@ type World struct {
 	PreemptMeans []int // swarm: candidate mean gaps between preemptions (0 = never)
 	MaxSteps     uint64
 	MaxSimTime   time.Duration
+	// FreezeOneIn / FreezeMax: starvation mode of the scheduler (see simrt.Config); used in the
+	// runs whose preemption mean is non-zero
+	FreezeOneIn int
+	FreezeMax   int
 	// PanicIsViolation: a panic inside simulated code is a violation of these properties
 	PanicIsViolation map[string]bool
 }
@@ -122,6 +126,9 @@ func (w *World) exec(t *testing.T, prop string, ch *simrt.Choices, mean int, ran
 		Strict:      true,
 		KeepLog:     keepLog,
 		RandSeed:    randSeed,
+	}
+	if mean > 0 {
+		cfg.FreezeOneIn, cfg.FreezeMax = w.FreezeOneIn, w.FreezeMax
 	}
 	return simrt.Run(cfg, bubble(t), func() { w.Run(prop) })
 }
